@@ -757,6 +757,14 @@ def keyset_method(it, ref, h, name, args, kwargs):
         it.ctx.mutate()
         h.val = keysets.remove(eng, it, h.val, args[0], must_exist=True)
         return None
+    if name in ("difference_update", "difference") and len(args) == 1 and isinstance(args[0], VRef) and \
+            isinstance(it.ctx.deref(args[0]), HKeySet):
+        new = keysets.difference(eng, it, h.val, it.ctx.deref(args[0]).val)
+        if name == "difference":
+            return it.ctx.alloc(HKeySet(new))
+        it.ctx.mutate()
+        h.val = new
+        return None
     if name == "discard":
         it.ctx.mutate()
         h.val = keysets.remove(eng, it, h.val, args[0], must_exist=False)
